@@ -2837,6 +2837,10 @@ func (fr *Frame) call(st *State, x *ssa.Call) bool {
 		ef := c.eltFn(sl.Elem())
 		fr.assume(st, fmt.Sprintf("(forall ((%s Int)) (! (=> (and (<= 0 %s) (< %s (sl.len %s))) (= (%s %s %s %s) (sqat_%s (%s %s) %s))) :pattern ((%s %s %s %s))))",
 			q, q, q, sv.T, ef, st.heap[key], sv.T, q, c.sortOf(st2), so, before.T, q, ef, st.heap[key], sv.T, q))
+		// bridge: an element of the sequence before the sort is the element the slice held then (so that facts stated over
+		// s[i] before the sort reach the witness index of the permutation)
+		fr.assume(st, fmt.Sprintf("(forall ((%s Int)) (! (= (sqat_%s %s %s) (%s %s %s %s)) :pattern ((sqat_%s %s %s))))",
+			q, c.sortOf(st2), before.T, q, ef, arr, sv.T, q, c.sortOf(st2), before.T, q))
 		return true
 	case "strconv.FormatUint", "strconv.Itoa", "strconv.FormatInt":
 		// decimal rendering is injective: modelled as an uninterpreted function with a left inverse
@@ -3511,6 +3515,9 @@ func (c *Ctx) sortedOfFn(st *seqType) string {
 		c.dtDecls = append(c.dtDecls, fmt.Sprintf("(declare-fun %s (%s) %s)", name, sn, sn),
 			fmt.Sprintf("(assert (forall ((q %s)) (! (= (sq.len (%s q)) (sq.len q)) :pattern ((%s q)))))", sn, name, name),
 			fmt.Sprintf("(assert (forall ((a %s) (b %s)) (! (=> (and (= (sq.len a) (sq.len b)) (forall ((i Int)) (=> (and (<= 0 i) (< i (sq.len a))) (= (%s a i) (%s b i))))) (= (%s a) (%s b))) :pattern ((%s a) (%s b)))))", sn, sn, at, at, name, name, name, name),
+			// sorting permutes: every element of the sorted sequence is an element of the original (witness index srcIdx)
+			fmt.Sprintf("(declare-fun srcIdx_%s (%s Int) Int)", sn, sn),
+			fmt.Sprintf("(assert (forall ((q %s) (i Int)) (! (=> (and (<= 0 i) (< i (sq.len q))) (and (<= 0 (srcIdx_%s q i)) (< (srcIdx_%s q i) (sq.len q)) (= (%s (%s q) i) (%s q (srcIdx_%s q i))))) :pattern ((%s (%s q) i)))))", sn, sn, sn, at, name, at, sn, at, name),
 			fmt.Sprintf("(assert (forall ((a %s) (b %s)) (! (=> (and (= (sq.len a) (sq.len b)) (>= (sq.len a) 2) (forall ((i Int)) (=> (and (<= 0 i) (< i (- (sq.len a) 2))) (= (%s a i) (%s b i)))) (= (%s a (- (sq.len a) 2)) (%s b (- (sq.len a) 1))) (= (%s a (- (sq.len a) 1)) (%s b (- (sq.len a) 2)))) (= (%s a) (%s b))) :pattern ((%s a) (%s b)))))", sn, sn, at, at, at, at, at, at, name, name, name, name))
 	}
 	return name
